@@ -12,6 +12,7 @@ import (
 	"fmt"
 	"io"
 	"net/http"
+	"strings"
 	"sync"
 
 	"github.com/tmpim/casket"
@@ -32,6 +33,7 @@ type Spec struct {
 	Writes []Write     `json:"writes,omitempty"` // body writes; bytes are lib.DetBody(Tag, total)[off:off+n]
 	Tag    uint64      `json:"tag,omitempty"`
 	Text   string      `json:"text,omitempty"` // literal body instead of DetBody (written in the Writes split if given, else once)
+	Rep    int         `json:"rep,omitempty"`  // with Text: the body is Text repeated Rep times (large bodies without large headers)
 	Ret    int         `json:"ret,omitempty"`  // returned status
 	Err    string      `json:"err,omitempty"`  // returned error text ("" = nil)
 	Panic  string      `json:"panic,omitempty"` // "before" | "after" | ""
@@ -48,6 +50,9 @@ func (s Spec) Encode() string {
 // Body returns the complete body the spec writes.
 func (s Spec) Body() []byte {
 	if s.Text != "" {
+		if s.Rep > 1 {
+			return []byte(strings.Repeat(s.Text, s.Rep))
+		}
 		return []byte(s.Text)
 	}
 	total := 0
